@@ -145,5 +145,18 @@ Qed.
 Lemma ss_sum_cpiv_nonneg : forall l, Forall (fun x => 0 <= ba_cpiv x) l -> 0 <= ss_sum_cpiv l.
 Proof. unfold ss_sum_cpiv. induction l; cbn; intros H; [lia|]. inversion H; subst. specialize (IHl H3). lia. Qed.
 
+Lemma ss_assoc_set_get : forall k v l k', ss_assoc k' (ss_assoc_set k v l) = if k' =? k then Some v else ss_assoc k' l.
+Proof.
+  induction l as [|[k0 v0] tl IH]; intros k'; cbn.
+  - destruct (k' =? k); reflexivity.
+  - destruct (Z.eqb_spec k k0); cbn.
+    + subst. destruct (k' =? k0); reflexivity.
+    + rewrite IH. destruct (Z.eqb_spec k' k0); [|reflexivity]. subst. destruct (Z.eqb_spec k0 k); [congruence | reflexivity].
+Qed.
+
+Lemma ss_assoc0_set : forall k v l k', ss_assoc0 k' (ss_assoc_set k v l) = if k' =? k then v else ss_assoc0 k' l.
+Proof. unfold ss_assoc0; intros. rewrite ss_assoc_set_get. destruct (k' =? k); reflexivity. Qed.
+
+
 Tactic Notation "bind_as" hyp(H) simple_intropattern(p) ident(E) :=
   apply ss_bind_some in H; destruct H as [p [E H]].
